@@ -23,6 +23,11 @@ type c30Access struct {
 type c30Scope struct {
 	F    *core.FuncInfo
 	Bind map[*types.Var]c30Access
+	// Stale (optional): locals of F that must not be looked through, because the location their single
+	// definition copies can have changed since (a copy of the capacity taken before a wait loop): such a
+	// local is a location of its own, with no role. Inherited by the scopes of called closures/functions
+	// only through the binding of their parameters (an argument that is a stale local stays one).
+	Stale func(f *core.FuncInfo, v *types.Var) bool
 }
 
 // access resolves an expression (identifier or field selection chain, single-definition locals looked
@@ -30,6 +35,14 @@ type c30Scope struct {
 func (sc *c30Scope) access(e ast.Expr) (c30Access, bool) {
 	if e == nil {
 		return c30Access{}, false
+	}
+	if sc.Stale != nil {
+		// a chain that starts at a stale local denotes that local, not what it was copied from
+		if v0, p0 := c30RawPath(sc.F, e); v0 != nil && sc.Stale(sc.F, v0) {
+			if _, bound := sc.Bind[v0]; !bound {
+				return c30Access{Root: v0, Path: p0}, true
+			}
+		}
 	}
 	root, path := fieldPath(sc.F, e)
 	v := varOf(sc.F, resolveLocal(sc.F, root))
@@ -56,6 +69,7 @@ func (sc *c30Scope) enter(call *ast.CallExpr) *c30Scope {
 	}
 	sub := &c30Scope{F: g, Bind: map[*types.Var]c30Access{}}
 	if closure {
+		sub.Stale = sc.Stale
 		// a function literal sees the variables of its enclosing function: they keep their meaning
 		for v, acc := range sc.Bind {
 			sub.Bind[v] = acc
@@ -88,12 +102,17 @@ func (sc *c30Scope) enter(call *ast.CallExpr) *c30Scope {
 // So `if a > max || b > max { refuse }`, `if exceeds(a, b) { refuse }` and `if !fits(a, b) { refuse }`
 // are the same guard.
 func c30Implies(sc *c30Scope, ft core.Fact, want core.LinCmp, name func(c30Access) string, depth int) bool {
-	return c30ImpliesN(sc, ft, want, func(s *c30Scope, e ast.Expr) string {
+	return c30ImpliesN(sc, ft, want, c30AccessNamer(name), depth)
+}
+
+// c30AccessNamer names an atom by the role of the storage location it denotes.
+func c30AccessNamer(name func(c30Access) string) c30Namer {
+	return func(s *c30Scope, e ast.Expr) string {
 		if acc, ok := s.access(e); ok {
 			return name(acc)
 		}
 		return ""
-	}, depth)
+	}
 }
 
 // c30Namer names an atom (field load, parameter, call) of a comparison written in the function of
@@ -103,13 +122,26 @@ type c30Namer func(sc *c30Scope, e ast.Expr) string
 // c30ImpliesN is c30Implies with a namer that sees the expression itself (so that calls such as
 // c.Len() can have a role too).
 func c30ImpliesN(sc *c30Scope, ft core.Fact, want core.LinCmp, atom c30Namer, depth int) bool {
+	return c30ImpliesAny(sc, ft, []core.LinCmp{want}, atom, depth)
+}
+
+// c30ImpliesAny: the fact establishes one of the comparisons `wants` (which one may depend on how the
+// fact came to hold: the true result of `a.X > b.X || a.Y > b.Y` establishes "X exceeds or Y exceeds").
+// The boolean may be the call of a declared function, or a local defined once from one of the results
+// of such a call (`v, ok := h(…)`): the returns of the function that can give this truth value must
+// each establish one of the comparisons.
+func c30ImpliesAny(sc *c30Scope, ft core.Fact, wants []core.LinCmp, atom c30Namer, depth int) bool {
 	namer := func(e ast.Expr) string { return atom(sc, e) }
-	if lc, ok := core.NormLinCmp(sc.F.Info(), ft, namer); ok && lc.Equal(want) {
-		// rewriting a comparison arithmetically (a > m - h  <=>  h + a > m) is valid only while no operand
-		// wraps around: a difference of unsigned amounts does as soon as the subtrahend is the larger one
-		// (capacity - held after Terminate has zeroed the capacity), so a test written with one does not
-		// establish the comparison
-		return c30UnsignedSub(sc.F, ft.Expr) == nil
+	if lc, ok := core.NormLinCmp(sc.F.Info(), ft, namer); ok {
+		for _, want := range wants {
+			if lc.Equal(want) {
+				// rewriting a comparison arithmetically (a > m - h  <=>  h + a > m) is valid only while no operand
+				// wraps around: a difference of unsigned amounts does as soon as the subtrahend is the larger one
+				// (capacity - held after Terminate has zeroed the capacity), so a test written with one does not
+				// establish the comparison
+				return c30UnsignedSub(sc.F, ft.Expr) == nil
+			}
+		}
 	}
 	if depth <= 0 {
 		return false
@@ -135,7 +167,7 @@ func c30ImpliesN(sc *c30Scope, ft core.Fact, want core.LinCmp, atom c30Namer, de
 		}
 		callExpr = l
 	}
-	call, ok := ast.Unparen(callExpr).(*ast.CallExpr)
+	call, idx, ok := c30CallOfBool(sc.F, callExpr)
 	if !ok {
 		return false
 	}
@@ -144,28 +176,33 @@ func c30ImpliesN(sc *c30Scope, ft core.Fact, want core.LinCmp, atom c30Namer, de
 		return false
 	}
 	g := sub.F
-	rets := g.ReturnPoints()
-	if len(rets) == 0 {
+	cases, ok := c30ResultCases(g, idx)
+	if !ok {
 		return false
 	}
-	for _, rp := range rets {
-		r, _ := rp.Node().(*ast.ReturnStmt)
-		if r == nil || len(r.Results) != 1 {
-			return false // named results / multi-value helpers are not looked through
-		}
-		res := r.Results[0]
-		if v, isConst := core.ConstVal(g.Info(), res); isConst && v.Kind() == constant.Bool && constant.BoolVal(v) != truth {
+	for _, rc := range cases {
+		if val, isConst := c30ConstBool(g, rc.Expr); isConst && val != truth {
 			continue // this return cannot produce the result in question
 		}
-		established := false
-		for _, sf := range core.Decompose(res, truth) {
-			if c30ImpliesN(sub, sf, want, atom, depth-1) {
-				established = true
+		// whichever alternative made the result expression take this truth value, it establishes one of
+		// the comparisons
+		alts := core.Disjuncts(rc.Expr, truth)
+		established := len(alts) > 0
+		for _, alt := range alts {
+			some := false
+			for _, sf := range alt {
+				if c30ImpliesAny(sub, sf, wants, atom, depth-1) {
+					some = true
+					break
+				}
+			}
+			if !some {
+				established = false
 				break
 			}
 		}
 		if !established {
-			established, _ = g.GuardedBy(rp, func(x core.Fact) bool { return c30ImpliesN(sub, x, want, atom, depth-1) })
+			established, _ = g.GuardedBy(rc.Pt, func(x core.Fact) bool { return c30ImpliesAny(sub, x, wants, atom, depth-1) })
 		}
 		if !established {
 			return false
